@@ -30,6 +30,9 @@ def inside(d, crit, targets, is_gt=False):
     i = targets.index(d["label"])
     if is_gt and crit.get("min_point_numbers") is not None and d.get("pts", 0) < crit["min_point_numbers"][i]:
         return False
+    if "max_distance_list" in crit:      # a ring in the ego's ground plane: the height of the object does not matter
+        r = math.hypot(d["x"], d["y"])
+        return crit["min_distance_list"][i] < r < crit["max_distance_list"][i]
     return abs(d["x"]) < crit["max_x_position_list"][i] and abs(d["y"]) < crit["max_y_position_list"][i]
 
 
@@ -97,6 +100,10 @@ def gen(rnd):
             # sometimes the same centre but a quarter turn: centre distance ~0 while the plane distance is large
             g.update(label=e["label"], x=e["x"] + rnd.choice([0.0, 0.1, 0.6, 1.5]) + 0.03 * gi, y=e["y"] + 0.02 * gi,
                      yaw=e.get("yaw", 0.0) + rnd.choice([0.0, 0.0, 1.5707963]))
+    if rnd.random() < 0.3:
+        crit = dict(max_distance_list=[rnd.choice([6.0, 9.0])] * n, min_distance_list=[rnd.choice([0.0, 2.0])] * n)
+        for d in est + gt:
+            d["z"] = rnd.choice([0.0, 2.5, -1.5, 6.0])      # overhead / below: the planar distance decides
     # ground truths carry a lidar point count; the critical filter may demand a minimum (of ground truths only)
     for g in gt:
         g["pts"] = rnd.choice([0, 1, 3, 8])
